@@ -55,7 +55,8 @@ Definition opt_entry (polish : bool) (P : pinfo) (density_has_grad : bool) (x0 :
 
 (* the gradient probe `density.gradient(x0)` at the top of _solve_max_point: it may succeed, raise NotImplementedError /
    AttributeError (caught: finite differences), or raise something else (a Cauchy likelihood: TypeError) -- that exception is
-   not caught, the entry point FAILS before any solver is built *)
+   not caught, the entry point FAILS before any solver is built (the same exception would escape once more from the second probe,
+   `_check_posterior(self, CMRF, must_have_gradient=True)`, which catches the same two classes only) *)
 Inductive grad_probe := GOk | GNotAvailable | GRaises.
 Definition probe_has_grad (p : grad_probe) : bool := match p with GOk => true | _ => false end.
 Inductive entry_result := ERet (x : qv) (ok : bool) | ERaised.
